@@ -163,7 +163,10 @@ class BodyMixin:
             b = self._get_body_string()
             if not b:
                 return None
-            return json_mod.loads(b)
+            try:
+                return json_mod.loads(b)
+            except ValueError:
+                self._raise(RequestError('Invalid JSON'), RequestError)
         return None
 
     @cache_in('environ[ ombott.request.post ]', read_only=True)
@@ -182,7 +185,9 @@ class BodyMixin:
         ctype = self.content_type
         if not ctype.startswith('multipart/'):
             if ctype.startswith('application/json'):
-                post.update(self.json)
+                data = self.json
+                if isinstance(data, dict):
+                    post.update(data)
             else:
                 parse_qsl(
                     touni(self._get_body_string(), 'latin1'),
